@@ -312,6 +312,19 @@ void check_vec_single(Vec<T, N> const &a, int const mode, T const k, std::index_
     ds *= k;
     if (to_arr(s) != r_scale(a, k) || buf != r_scale(a, k) || to_arr(ds) != r_scale(a, k)) verif::fail("vector::operator*=(scalar)|vs-reference|" + L, what());
   }
+  // the scalar refers to a component of the object itself (v *= v.x()): every component is
+  // multiplied by the value the scalar had at the call
+  {
+    SV s(make_svec<T, N>(a));
+    s *= s.storage()[0];
+    Vec<T, N> buf = a;
+    vvec<T, N> w{view_storage<T, N>(buf.data())};
+    w *= w.storage()[0];
+    SD ds(make_sdim<T, N>(a));
+    ds *= ds.storage()[0];
+    if (to_arr(s) != r_scale(a, a[0]) || buf != r_scale(a, a[0]) || to_arr(ds) != r_scale(a, a[0]))
+      verif::fail("vector::operator*=(scalar)|scalar-aliases-a-component|" + L, what());
+  }
 }
 
 // ---------------------------------------------------------------- two operands
